@@ -30,7 +30,7 @@ def mean_mass(mol, n, seed):
 
 
 def check(rep):
-    coq = fw.coq_check("C14", [])
+    coq = fw.coq_check("C14", ["SrcSysGen"])
     quick = rep.tier == "quick"
     rnd = random.Random(rep.seed + 14)
     n_sys = 40 if quick else 300
